@@ -11,94 +11,205 @@ The glob engine is an oracle: its answers are tabulated by the harness straight 
 import collections, json, os, re
 from concurrent.futures import ThreadPoolExecutor
 import vlib
-from vlib import cstr, clist, copt, cbool
 from common import proof_gate, proof_coverage
 
 KINDS = ('builtin', 'custom', 'agg')
 
 
-# ---------------------------------------------------------------- Coq printers
+# ---------------------------------------------------------------- wire format (see Check/C05Check.v)
 
-def cstrs(l):
-    return clist(cstr(x) for x in l)
-
-
-def cmask(h):
-    return str(int(h, 16))
+def b8(n):
+    return bytes([n])
 
 
-def ctable(rows):
-    out = []
-    for r in rows or []:
-        e, st, names = r[0], r[1], r[2:]
-        out.append('(%s, %s)' % (cstr(e), 'None' if st == 'bad' else '(Some %s)' % cstrs(names)))
-    return clist(out)
+def b16(n):
+    assert 0 <= n < 65536, n
+    return bytes([n >> 8, n & 255])
+
+
+def bstr(x):
+    b = x.encode('utf-8', 'surrogateescape') if isinstance(x, str) else bytes(x)
+    return b16(len(b)) + b
+
+
+def blist(items):
+    items = list(items)
+    return b16(len(items)) + b''.join(items)
+
+
+def bstrs(l):
+    return blist(bstr(x) for x in (l or []))
+
+
+def bopt(x):
+    return b8(0) if x is None else b8(1) + x
+
+
+def bbits(h):
+    z = int(h, 16)
+    return bstr(z.to_bytes((z.bit_length() + 7) // 8, 'little'))
+
+
+def btable(rows):
+    return blist(bstr(r[0]) + bopt(None if r[1] == 'bad' else bstrs(r[2:])) for r in (rows or []))
+
+
+def to_ints_v(data):
+    """bytes -> Coq term of type list (list int): 7 bytes per primitive integer, little endian"""
+    data = data + b'\0' * ((-len(data)) % 7)
+    ints = [str(int.from_bytes(data[k:k + 7], 'little')) for k in range(0, len(data), 7)]
+    return '[' + ';\n'.join('[' + ';'.join(ints[k:k + 1000]) + ']' for k in range(0, len(ints), 1000)) + ']'
+
+
+HEAD = 'From Coq Require Import Uint63.\nFrom Regal Require Import Check.C05Check.\nOpen Scope uint63_scope.\n'
 
 
 def pat_v(universe, shapes, cases):
-    v = ['From Regal Require Import Check.C05Check.', 'Open Scope N_scope.']
-    v.append('Definition universe : list str := %s.' % cstrs(universe))
-    v.append('Definition shapes : list shape := %s.' % clist(
-        '{| sh_prefix := %s; sh_files := %s; sh_rego_rel := %s |}' % (cstr(s['prefix']), cstrs(s['files']), cstrs(s['rego_rel']))
-        for s in shapes))
-    v.append('Definition pr := Eval vm_compute in prepare universe shapes.')
-    cs = []
-    for c in cases:
-        rows = clist('(%s, %s)' % (cstr(r['e']), 'ROk %s' % cmask(r['mask']) if r['ok'] else 'RBad') for r in c['rows'])
-        go = clist('None' if g in ('error', 'notsublist') else '(Some %s)' % cmask(g) for g in c['go'])
-        rg = clist(cmask(g) for g in c['rego'])
-        cs.append('{| pc_pat := %s; pc_compiler := %s; pc_rows := %s; pc_go := %s; pc_rego := %s |}'
-                  % (cstr(c['p']), cstrs(c['compiler']), rows, go, rg))
-    v.append('Definition cases : list pcase := %s.' % clist(cs))
-    v.append('Definition RB := Eval vm_compute in bulk_failures pr cases 0.')
-    v.append('Definition RR := Eval vm_compute in rel_failures pr.')
-    v.append('Print RB. Print RR.')
-    return '\n'.join(v)
+    data = bstrs(universe)
+    data += blist(bstr(s['prefix']) + bstrs(s['files']) + bstrs(s['rego_rel']) for s in shapes)
+    data += blist(
+        bstr(c['p']) + bstrs(c['compiler'])
+        + blist(bstr(r['e']) + b8(1 if r['ok'] else 0) + bbits(r['mask']) for r in c['rows'])
+        + blist(bopt(None if g in ('error', 'notsublist') else bbits(g)) for g in c['go'])
+        + blist(bbits(g) for g in c['rego'])
+        for c in cases)
+    return (HEAD + 'Definition data : list (list int) := %s.\n' % to_ints_v(data) +
+            'Definition R := Eval vm_compute in pat_report data.\n'
+            'Definition RN := Eval vm_compute in [fst (fst R)].\nDefinition RB := Eval vm_compute in snd (fst R).\n'
+            'Definition RR := Eval vm_compute in snd R.\nPrint RN. Print RB. Print RR.\n')
 
 
 def small_v(cases):
-    v = ['From Regal Require Import Check.C05Check.', 'Open Scope N_scope.']
-    cs = []
-    for c in cases:
-        cs.append('{| sc_prefix := %s; sc_files := %s; sc_cli := %s; sc_cfg := %s; sc_rule := %s; sc_cols := %s; sc_table := %s; '
-                  'sc_go_kept := %s; sc_rego_global := %s; sc_rego_rel := %s; sc_rego_excl := %s; sc_rego_excl_global := %s |}' % (
-                      cstr(c['prefix']), cstrs(c['files']), cstrs(c['cli']),
-                      copt(cstrs(c['cfg']) if c['cfg_set'] else None), cstrs(c['rule']),
-                      cstrs(c['cols'] or []), ctable(c['table']),
-                      copt(None if c['go_err'] else cstrs(c['go_kept'])),
-                      copt(cstrs(c['rego_global']) if c['rego_global_defined'] else None),
-                      cstrs(c['rego_rel']),
-                      clist('%d%%nat' % j for j in c['rego_excl']), clist('%d%%nat' % j for j in c['rego_excl_global'])))
-    v.append('Definition cases : list scase := %s.' % clist(cs))
-    v.append('Definition RS := Eval vm_compute in small_failures cases 0.')
-    v.append('Print RS.')
-    return '\n'.join(v)
+    data = blist(
+        bstr(c['prefix']) + bstrs(c['files']) + bstrs(c['cli']) + bopt(bstrs(c['cfg']) if c['cfg_set'] else None)
+        + bstrs(c['rule']) + bstrs(c['cols']) + btable(c['table'])
+        + bopt(None if c['go_err'] else bstrs(c['go_kept']))
+        + bopt(bstrs(c['rego_global']) if c['rego_global_defined'] else None)
+        + bstrs(c['rego_rel']) + blist(b16(j) for j in c['rego_excl']) + blist(b16(j) for j in c['rego_excl_global'])
+        for c in cases)
+    return (HEAD + 'Definition data : list (list int) := %s.\n' % to_ints_v(data) +
+            'Definition R := Eval vm_compute in small_report data.\n'
+            'Definition RN := Eval vm_compute in [fst R].\nDefinition RS := Eval vm_compute in snd R.\nPrint RN. Print RS.\n')
 
 
 def lint_v(cases):
-    v = ['From Regal Require Import Check.C05Check.', 'Open Scope N_scope.']
-    cs = []
-    for c in cases:
+    def one(c):
         ign = c['rule_ignore']
         hit = c.get('hit') or {}
-        cs.append('{| lc_prefix := %s; lc_files := %s; lc_cli := %s; lc_cfg := %s; lc_ign_builtin := %s; lc_ign_custom := %s; '
-                  'lc_ign_agg := %s; lc_cols := %s; lc_table := %s; lc_err := %s; lc_scanned := %d%%nat; '
-                  'lc_hit_builtin := %s; lc_hit_custom := %s; lc_hit_agg := %s |}' % (
-                      cstr(c['prefix']), cstrs(c['files']), cstrs(c['cli'] or []),
-                      copt(cstrs(c['cfg']) if c['cfg_set'] else None),
-                      cstrs(ign.get('builtin', [])), cstrs(ign.get('custom', [])), cstrs(ign.get('agg', [])),
-                      cstrs(c['cols'] or []), ctable(c['table']), cbool(bool(c.get('err'))), c['files_scanned'],
-                      cstrs(hit.get('builtin', [])), cstrs(hit.get('custom', [])), cstrs(hit.get('agg', []))))
-    v.append('Definition cases : list lcase := %s.' % clist(cs))
-    v.append('Definition RL := Eval vm_compute in lint_failures cases 0.')
-    v.append('Print RL.')
-    return '\n'.join(v)
+        return (bstr(c['prefix']) + bstrs(c['files']) + bstrs(c['cli']) + bopt(bstrs(c['cfg']) if c['cfg_set'] else None)
+                + bstrs(ign.get('builtin')) + bstrs(ign.get('custom')) + bstrs(ign.get('agg'))
+                + bstrs(c['cols']) + btable(c['table']) + b8(1 if c.get('err') else 0) + b16(c['files_scanned'])
+                + bstrs(hit.get('builtin')) + bstrs(hit.get('custom')) + bstrs(hit.get('agg')))
+    data = blist(one(c) for c in cases)
+    return (HEAD + 'Definition data : list (list int) := %s.\n' % to_ints_v(data) +
+            'Definition R := Eval vm_compute in lint_report data.\n'
+            'Definition RN := Eval vm_compute in [fst R].\nDefinition RL := Eval vm_compute in snd R.\nPrint RN. Print RL.\n')
 
 
-def codes(out, marker):
+def lsp_v(cases):
+    data = blist(
+        bstr(c['root']) + bstrs(c['uris']) + bstrs(c['ignore']) + bstrs(c['cols']) + btable(c['table'])
+        + blist(b8(1 if x else 0) for x in c['ignored']) + bopt(bstrs(c['modules']) if c['modules_ok'] else None)
+        for c in cases)
+    return (HEAD + 'Definition data : list (list int) := %s.\n' % to_ints_v(data) +
+            'Definition R := Eval vm_compute in lsp_report data.\n'
+            'Definition RN := Eval vm_compute in [fst R].\nDefinition RW := Eval vm_compute in snd R.\nPrint RN. Print RW.\n')
+
+
+TOKENS = ['a', 'b.rego', '*', '**', '?', '/', '[ab]']
+COMPS = ['a', 'b', 'a.rego', 'b.rego']
+
+
+def token_pool(k):
+    cur, seen, res = [''], set(), []
+    for _ in range(k):
+        cur = list(dict.fromkeys(c + t for c in cur for t in TOKENS))
+        for p in cur:
+            if p not in seen:
+                seen.add(p)
+                res.append(p)
+    return res
+
+
+def rel_paths(depth):
+    cur, res = [''], []
+    for _ in range(depth):
+        cur = [(c + '/' if c else '') + k for c in cur for k in COMPS]
+        res += cur
+    return res
+
+
+def lsp_inputs(ctx):
+    rng = ctx.rng
+    pool, rels = token_pool(3), rel_paths(3)
+    fixed = [
+        {'root': 'file:///w', 'uris': ['file:///w/a.rego', 'file:///w/a/b.rego', 'file:///w/a'], 'ignore': ['a/']},
+        {'root': 'file:///w', 'uris': ['file:///w/a.rego', 'file:///w/a/b.rego'], 'ignore': ['', '/a.rego']},
+        {'root': 'file:///w', 'uris': ['file:///w/a.rego', 'file:///w/a/b.rego'], 'ignore': []},
+        {'root': 'file:///w/x', 'uris': ['file:///w/x/b/a.rego', 'file:///w/b/a.rego'], 'ignore': ['/b/']},
+    ]
+    cases = list(fixed)
+    n = 120 if ctx.quick() else 1500
+    for _ in range(n):
+        root = rng.choice(['file:///w', 'file:///w', 'file:///w/x', 'file:///ws'])
+        uris = list(dict.fromkeys(root + '/' + rng.choice(rels) for _ in range(4 + rng.below(8))))
+        if rng.below(6) == 0:
+            uris.append('file:///elsewhere/' + rng.choice(rels))
+        ign = []
+        for _ in range(rng.below(4)):
+            k = rng.below(8)
+            if k == 0:
+                ign.append('')
+            elif k < 4:
+                r = rng.choice(rels)
+                ign.append(rng.choice([r, '/' + r, r.rsplit('/', 1)[0] + '/', r.rsplit('/', 1)[-1]]))
+            else:
+                ign.append(rng.choice(pool))
+        cases.append({'root': root, 'uris': uris, 'ignore': ign})
+    return cases
+
+
+def run_lsp(ctx, cases):
+    inp, outp = os.path.join(ctx.tmp, 'lsp_in.json'), os.path.join(ctx.tmp, 'lsp_out.json')
+    json.dump(cases, open(inp, 'w'))
+    rc, log = vlib.go_test_overlay(
+        ctx, './internal/lsp',
+        {'internal/lsp/zz_verif_c05_test.go': os.path.join(vlib.VERIF, 'harness', 'overlay', 'c05_test.go')},
+        'TestVerifC05', env_extra={'VERIF_C05_IN': inp, 'VERIF_C05_OUT': outp}, timeout=1500)
+    if rc != 0 or not os.path.exists(outp):
+        if 'build failed' in log or ('.go:' in log and 'FAIL' in log and 'panic' not in log):
+            raise vlib.HarnessBuildError(log)
+        raise RuntimeError('c05 overlay test failed:\n' + log[-3000:])
+    return json.load(open(outp))
+
+
+def lsp_predicate(c):
+    """the server's two call sites (path based, URI based) and a direct FilterIgnoredPaths call agree"""
+    any_bad = any(r[1] == 'bad' for r in (c['table'] or []))
+    if not (c['modules_ok'] and c['direct_ok']):
+        return None if any_bad else 'FilterIgnoredPaths returned an error although every expansion compiles'
+    mods = set(c['modules'])
+    direct = set(c['direct'])
+    for u, ig in zip(c['uris'], c['ignored']):
+        if not u.endswith('.rego'):
+            if not ig:
+                return 'ignoreURI(%r) = false for a non-.rego URI' % u
+            continue
+        if not u.startswith(c['root'] + '/'):
+            continue   # not below the workspace root: no root-relative name, outside the property (the model is still compared)
+        path = u[len('file://'):]
+        if ig != (u not in mods):
+            return 'ignoreURI(%r) = %s but getFilteredModules %s it' % (u, ig, 'drops' if u not in mods else 'keeps')
+        if ig != (path not in direct):
+            return 'ignoreURI(%r) = %s but FilterIgnoredPaths on the path %s it' % (u, ig, 'drops' if path not in direct else 'keeps')
+    return None
+
+
+def codes(out, marker, expect_n):
+    n = vlib.parse_nat_list(out, 'RN')
     l = vlib.parse_nat_list(out, marker)
-    if l is None:
-        raise RuntimeError('no %s in Coq output:\n%s' % (marker, out[-3000:]))
+    if l is None or n != [expect_n] or 99999999 in l:
+        raise RuntimeError('Coq decoded %r cases (sent %d), %s = %r:\n%s' % (n, expect_n, marker, l, out[-2000:]))
     d = collections.defaultdict(list)
     for x in l:
         d[x // 10000].append(x % 10000)
@@ -154,7 +265,14 @@ def small_predicate(c):
     return None
 
 
+def cli_relative_elsewhere(c):
+    """CLI run whose path argument is relative to a working directory other than the project root"""
+    return c['mode'] == 'cli' and not c['arg'].startswith('/') and c.get('cwd', '') != ''
+
+
 def lint_true_rel(c):
+    if c['mode'] == 'cli':
+        return c['rel']                          # root-relative by construction, however the argument is spelled
     if c['prefix'] == '' and c['mode'] in ('paths-abs', 'modules-abs'):
         return [f[1:] for f in c['files']]       # no prefix: relative to the file system root
     return c['rel']
@@ -198,7 +316,15 @@ def lint_predicate(c):
 # ---------------------------------------------------------------- run
 
 def run(ctx):
-    h = vlib.build_harness(ctx, 'c05')
+    import time
+    tm = {'coq_build_and_props': round(time.time() - ctx.t0, 1)}
+    t1 = time.time()
+    with ThreadPoolExecutor(max_workers=2) as ex1:
+        fb = ex1.submit(vlib.build_regal, ctx)
+        h = vlib.build_harness(ctx, 'c05')
+        regal_bin = fb.result()
+    tm['harness_build'] = round(time.time() - t1, 1)
+    t1 = time.time()
     out = os.path.join(ctx.tmp, 'c05.jsonl')
     work = os.path.join(ctx.tmp, 'work')
     os.makedirs(work)
@@ -206,9 +332,27 @@ def run(ctx):
     cmd = [h, out, ctx.tier, work, corpus]
     if ctx.replay:
         cmd.append(ctx.replay)
-    rc, log = vlib.run(cmd, env=dict(os.environ, VERIF_SEED=str(ctx.seed)), timeout=1500)
+    replay_kind = None
+    if ctx.replay:
+        replay_kind = (json.load(open(ctx.replay)).get('case') or {}).get('kind')
+    lsp_in = []
+    if not ctx.replay:
+        lsp_in = lsp_inputs(ctx)
+    elif replay_kind == 'lsp':
+        rc0 = json.load(open(ctx.replay))['case']
+        lsp_in = [{'root': rc0['root'], 'uris': rc0['uris'], 'ignore': rc0['ignore']}]
+    with ThreadPoolExecutor(max_workers=2) as ex0:
+        fut = ex0.submit(run_lsp, ctx, lsp_in) if lsp_in else None
+        if replay_kind == 'lsp':
+            rc, log = 0, ''
+            open(out, 'w').close()
+        else:
+            rc, log = vlib.run(cmd, env=dict(os.environ, VERIF_SEED=str(ctx.seed), VERIF_C05_REGAL=regal_bin), timeout=1500)
+        lsps = fut.result() if fut else []
     if rc != 0:
         raise RuntimeError('c05 harness failed: ' + log[-3000:])
+    tm['harness_and_lsp_run'] = round(time.time() - t1, 1)
+    t1 = time.time()
     rows = [json.loads(l) for l in open(out)]
     universe = next((r['cols'] for r in rows if r['kind'] == 'universe'), [])
     shapes = [r['shape'] for r in rows if r['kind'] == 'shape']
@@ -218,34 +362,42 @@ def run(ctx):
     panics = [r for r in rows if r['kind'] == 'engine-panic']
 
     # ---- model side: evaluate the cases inside Coq (chunks in parallel)
-    chunk = 125
+    chunk = 160 if ctx.quick() else 250
     jobs = []
     for lo in range(0, len(pats), chunk):
-        jobs.append(('pat', lo, pat_v(universe, shapes, pats[lo:lo + chunk])))
-    for lo in range(0, len(smalls), 400):
-        jobs.append(('small', lo, small_v(smalls[lo:lo + 400])))
-    for lo in range(0, len(lints), 200):
-        jobs.append(('lint', lo, lint_v(lints[lo:lo + 200])))
+        jobs.append(('pat', lo, len(pats[lo:lo + chunk]), pat_v(universe, shapes, pats[lo:lo + chunk])))
+    for lo in range(0, len(smalls), 90):
+        jobs.append(('small', lo, len(smalls[lo:lo + 90]), small_v(smalls[lo:lo + 90])))
+    for lo in range(0, len(lints), 100):
+        jobs.append(('lint', lo, len(lints[lo:lo + 100]), lint_v(lints[lo:lo + 100])))
+
+    for lo in range(0, len(lsps), 400):
+        jobs.append(('lsp', lo, len(lsps[lo:lo + 400]), lsp_v(lsps[lo:lo + 400])))
 
     def ev(job):
-        kind, lo, text = job
+        kind, lo, n, text = job
         rc, cout = vlib.coq_eval(ctx, 'Cases_C05_%s_%d' % (kind, lo), text, timeout=1500)
         if rc != 0:
             raise RuntimeError('case evaluation failed (%s %d):\n%s' % (kind, lo, cout[-3000:]))
-        return kind, lo, cout
-    pat_fail, small_fail, lint_fail, rel_fail = {}, {}, {}, set()
+        return kind, lo, n, cout
+    pat_fail, small_fail, lint_fail, lsp_fail, rel_fail = {}, {}, {}, {}, set()
     with ThreadPoolExecutor(max_workers=min(14, max(1, len(jobs)))) as ex:
-        for kind, lo, cout in ex.map(ev, jobs):
+        for kind, lo, n, cout in ex.map(ev, jobs):
             if kind == 'pat':
-                for i, cs in codes(cout, 'RB').items():
+                for i, cs in codes(cout, 'RB', n).items():
                     pat_fail[lo + i] = cs
                 rel_fail |= set(vlib.parse_nat_list(cout, 'RR') or [])
             elif kind == 'small':
-                for i, cs in codes(cout, 'RS').items():
+                for i, cs in codes(cout, 'RS', n).items():
                     small_fail[lo + i] = cs
+            elif kind == 'lsp':
+                for i, cs in codes(cout, 'RW', n).items():
+                    lsp_fail[lo + i] = cs
             else:
-                for i, cs in codes(cout, 'RL').items():
+                for i, cs in codes(cout, 'RL', n).items():
                     lint_fail[lo + i] = cs
+
+    tm['coq_case_evaluation'] = round(time.time() - t1, 1)
 
     # ---- implementation side
     explained = set()
@@ -284,16 +436,39 @@ def run(ctx):
             if small_viol <= 2:
                 vlib.violation(ctx, {'kind': 'filter-vs-rego', 'case': c, 'what': w},
                                signature={'kind': 'filter-vs-rego', 'key': json.dumps([c['prefix'], c['files'], c['cli'], c['cfg'], c['rule']])})
-    lint_viol = 0
+    lint_viol = n_cli_rel = 0
     for i, c in enumerate(lints):
         w = lint_predicate(c)
         if w:
-            explained.add(('lint', i))
+            if not cli_relative_elsewhere(c):
+                explained.add(('lint', i))   # (the known finding must not hide a model mismatch on the same case)
+            if cli_relative_elsewhere(c):
+                # one call site, one cause: the names handed to both matchers are relative to the working directory
+                n_cli_rel += 1
+                vlib.violation(ctx, {'kind': 'cli-relative-spelling', 'case': c,
+                                     'what': 'regal lint %s (cwd = root/%s), cli %r, config %r, per rule %r: %s' % (
+                                         c['arg'], c['cwd'], c['cli'], c['cfg'] if c['cfg_set'] else None, c['rule_ignore'], w)},
+                               signature={'kind': 'cli-relative-spelling',
+                                          'key': 'relative path argument, working directory is not the project root'})
+                continue
             lint_viol += 1
             if lint_viol <= 2:
-                vlib.violation(ctx, {'kind': 'lint', 'case': c, 'what': 'Lint(%s, prefix %r, cli %r, config %r, per rule %r): %s' % (
-                    c['mode'], c['prefix'], c['cli'], c['cfg'] if c['cfg_set'] else None, c['rule_ignore'], w)},
-                               signature={'kind': 'lint', 'key': json.dumps([c['mode'], c['prefix'], c['files'], c['cli'], c['cfg'], c['rule_ignore']], sort_keys=True)})
+                where = 'regal lint %s (cwd = root/%s)' % (c['arg'], c['cwd']) if c['mode'] == 'cli' else 'Lint(%s, prefix %r)' % (c['mode'], c['prefix'])
+                vlib.violation(ctx, {'kind': 'lint', 'case': c, 'what': '%s, cli %r, config %r, per rule %r: %s' % (
+                    where, c['cli'], c['cfg'] if c['cfg_set'] else None, c['rule_ignore'], w)},
+                               signature={'kind': 'lint', 'key': json.dumps([c['mode'], c['prefix'], c.get('cwd'), c.get('arg'), c['files'],
+                                                                             c['cli'], c['cfg'], c['rule_ignore']], sort_keys=True)})
+
+    lsp_viol = 0
+    for i, c in enumerate(lsps):
+        w = lsp_predicate(c)
+        if w:
+            explained.add(('lsp', i))
+            lsp_viol += 1
+            if lsp_viol <= 2:
+                vlib.violation(ctx, {'kind': 'lsp', 'case': dict(c, kind='lsp'),
+                                     'what': 'language server, root %r, ignore %r: %s' % (c['root'], c['ignore'], w)},
+                               signature={'kind': 'lsp', 'key': json.dumps([c['root'], c['uris'], c['ignore']])})
 
     # ---- correspondence failures that no failing input explains
     corr = []
@@ -307,6 +482,9 @@ def run(ctx):
     for i, cs in sorted(lint_fail.items()):
         if ('lint', i) not in explained:
             corr.append({'layer': 'lint', 'codes': cs, 'case': lints[i]})
+    for i, cs in sorted(lsp_fail.items()):
+        if ('lsp', i) not in explained:
+            corr.append({'layer': 'lsp', 'codes': cs, 'case': {k: lsps[i][k] for k in ('root', 'uris', 'ignore', 'ignored', 'modules')}})
     for s in sorted(rel_fail):
         corr.append({'layer': 'relativise', 'shape': shapes[s]['name'], 'prefix': shapes[s]['prefix']})
     if corr and not ctx.violations:
@@ -314,7 +492,7 @@ def run(ctx):
                              'relation': 'Check.C05Check (codes: pat 1 = rego_expand vs _pattern_compiler, 2 = oracle table lacks a row/column, '
                                          '1000+s = go_exclude_file/go_rel vs FilterIgnoredPaths on shape s, 2000+s = rego_exclude/rego_rel vs '
                                          '_exclude; small 1 = go_filter_ignored_paths, 2 = rego_global, 3 = rego_rel, 4/5 = rego_excluded_file, '
-                                         '9 = table; lint 1 = error, 2 = files_scanned, 3/4/5 = hits of builtin/custom/aggregate rule, 9 = table)',
+                                         '9 = table; lsp 1 = lsp_ignore_uri vs ignoreURI, 2 = lsp_filtered_modules vs getFilteredModules; lint 1 = error, 2 = files_scanned, 3/4/5 = hits of builtin/custom/aggregate rule, 9 = table)',
                              'n_mismatches': len(corr), 'first': corr[:5]}, no_input=True)
     proof_gate(ctx)
 
@@ -345,8 +523,8 @@ def run(ctx):
     if lints:
         samples.append({k: lints[-1].get(k) for k in ('mode', 'prefix', 'cli', 'cfg', 'rule_ignore', 'files_scanned', 'hit')})
     cov = proof_coverage(ctx, {
-        'evaluations': len(pats) * nfiles * 2 + sum(len(c['files']) for c in smalls) * 3 + len(lints),
-        'distinct_nontrivial': nontrivial + small_nt + lint_nt,
+        'evaluations': len(pats) * nfiles * 2 + sum(len(c['files']) for c in smalls) * 3 + len(lints) + sum(len(c['uris']) for c in lsps) * 2,
+        'distinct_nontrivial': nontrivial + small_nt + lint_nt + sum(1 for c in lsps if 0 < len(c['modules']) < len(c['uris'])),
         'rule': 'pat: every token pattern (<= 3 tokens exhaustive, 4 tokens %s) over {a, b.rego, *, **, ?, /, [ab]} plus odd and malformed '
                 'ones, each against %d files in %d (prefix, spelling) shapes on both matchers; non-trivial = the pattern excludes some but '
                 'not all of the 340 relative paths. small: pattern lists with distinct kept sets strictly between none and all. lint: runs '
@@ -356,14 +534,17 @@ def run(ctx):
         'patterns_by_source': dict(hist_src), 'patterns_by_number_of_expansions': {str(k): v for k, v in hist_exp.items()},
         'shapes': [{'name': s['name'], 'prefix': s['prefix'], 'files': len(s['files'])} for s in shapes],
         'small_cases': len(smalls), 'small_nontrivial': small_nt, 'lint_runs': len(lints), 'lint_nontrivial': lint_nt,
-        'lint_modes': dict(collections.Counter('%s|%s' % (c['mode'], c['prefix']) for c in lints)),
+        'lint_modes': dict(collections.Counter('%s|%s|%s|%s' % (c['mode'], c['prefix'], c.get('cwd', ''), c.get('arg', '')) for c in lints)),
+        'known_finding_cli_relative_spelling_cases': n_cli_rel,
         'outside_domain': {'go_error_uncompilable_expansion': n_go_err, 'engine_panics': [p['p'] for p in panics][:10],
                            'note': 'patterns with an expansion gobwas/glob cannot compile: Go aborts with an error, Rego treats it as '
                                    'no match (recorded, not flagged); patterns on which the engine itself panics are skipped'},
         'mismatch_model_pat': len(pat_fail), 'mismatch_model_small': len(small_fail), 'mismatch_model_lint': len(lint_fail),
-        'mismatch_model_relativise': len(rel_fail),
-        'predicate_failures': {'pat': pat_viol, 'small': small_viol, 'lint': lint_viol, 'go_error_unexplained': n_go_err_unexplained},
-        'samples': samples,
+        'mismatch_model_relativise': len(rel_fail), 'mismatch_model_lsp': len(lsp_fail),
+        'lsp_cases': len(lsps), 'lsp_uris': sum(len(c['uris']) for c in lsps),
+        'lsp_nontrivial': sum(1 for c in lsps if 0 < len(c['modules']) < len(c['uris'])),
+        'predicate_failures': {'pat': pat_viol, 'small': small_viol, 'lint': lint_viol, 'lsp': lsp_viol, 'go_error_unexplained': n_go_err_unexplained},
+        'samples': samples, 'timing_s': tm,
         'exhaustive': False,
     })
     return vlib.finish(ctx, 'proof', cov, [
@@ -374,6 +555,6 @@ def run(ctx):
         '(c05_exclude_agree / c05_filter_exact_partial still hold, c05_filter_error_only_uncompilable characterises the error)',
         'rule bodies are an oracle (fires); the harness uses three rules that fire once in every file',
         'file discovery (walk, .rego suffix, skipped directories) is not part of this model; lint cases pass explicit files',
-        'LSP call sites (ignoreURI with the workspace path, getFilteredModules with the workspace URI) are FilterIgnoredPaths with '
-        'checkFileExists=false: covered as shapes absdir and uri, not driven through the server',
+        'LSP call sites ignoreURI / getFilteredModules are driven directly (overlay test in package lsp) with the generic client '
+        'and names without percent escapes; uri.ToPath is modelled as TrimPrefix(uri, "file://") for those',
     ])
